@@ -68,6 +68,45 @@ func mixCase(t *rapid.T, s string) string {
 	}
 }
 
+// realistic values of well-known fields (what browsers, API clients and intermediaries really send): code that looks at
+// a field's meaning rather than its syntax only reacts to these
+var realistic = map[string][]string{
+	"accept":                    {"text/html,application/xhtml+xml,application/xml;q=0.9,image/avif,image/webp,*/*;q=0.8", "application/json", "*/*", "text/html", "image/webp,*/*"},
+	"accept-encoding":           {"gzip, deflate, br", "gzip", "br;q=1.0, gzip;q=0.8, *;q=0.1", "deflate", "zstd"},
+	"accept-language":           {"en-US,en;q=0.5", "de-CH"},
+	"accept-charset":            {"utf-8, iso-8859-1;q=0.5"},
+	"user-agent":                {"Mozilla/5.0 (X11; Linux x86_64; rv:126.0) Gecko/20100101 Firefox/126.0", "curl/8.5.0", "Go-http-client/1.1"},
+	"cache-control":             {"no-cache", "max-age=0", "no-store", "only-if-cached"},
+	"pragma":                    {"no-cache"},
+	"cookie":                    {"sid=abc123; theme=dark", "a=b"},
+	"content-type":              {"application/json", "application/x-www-form-urlencoded", "multipart/form-data; boundary=----x", "text/html; charset=utf-8", "application/grpc"},
+	"content-encoding":          {"gzip", "identity", "br"},
+	"range":                     {"bytes=0-99", "bytes=100-", "bytes=-5"},
+	"if-none-match":             {`"abc"`, `W/"xyz", "abc"`, "*"},
+	"if-match":                  {`"abc"`, "*"},
+	"if-modified-since":         {"Wed, 21 Oct 2015 07:28:00 GMT"},
+	"date":                      {"Wed, 21 Oct 2015 07:28:00 GMT"},
+	"referer":                   {"https://example.com/page?x=1", "http://c02.example/"},
+	"origin":                    {"https://example.com", "null"},
+	"authorization":             {"Bearer eyJhbGciOi.J9.abc", "Basic dXNlcjpwYXNz"},
+	"x-requested-with":          {"XMLHttpRequest"},
+	"upgrade-insecure-requests": {"1"},
+	"dnt":                       {"1"},
+	"max-forwards":              {"0", "1", "10"},
+	"via":                       {"1.1 vegur", "HTTP/1.1 GWA"},
+	"x-forwarded-for":           {"203.0.113.7", "203.0.113.7, 198.51.100.2"},
+	"forwarded":                 {"for=192.0.2.60;proto=http;by=203.0.113.43"},
+	"from":                      {"webmaster@example.org"},
+}
+
+// genValueFor draws a value for the named field: a realistic one in half of the draws when the field is well known.
+func genValueFor(t *rapid.T, name string) string {
+	if vs := realistic[strings.ToLower(name)]; len(vs) > 0 && rapid.Bool().Draw(t, "realistic") {
+		return rapid.SampledFrom(vs).Draw(t, "rv")
+	}
+	return genValue(t)
+}
+
 func genValue(t *rapid.T) string {
 	switch rapid.IntRange(0, 9).Draw(t, "vkind") {
 	case 0:
@@ -80,6 +119,15 @@ func genValue(t *rapid.T) string {
 	default:
 		return rapid.StringMatching(`[!-~]{1,24}`).Draw(t, "v")
 	}
+}
+
+func hasField(fs []vh.HeaderField, name string) bool {
+	for _, f := range fs {
+		if strings.EqualFold(f.Name, name) {
+			return true
+		}
+	}
+	return false
 }
 
 func genCase(t *rapid.T) ReqCase {
@@ -138,7 +186,7 @@ func genCase(t *rapid.T) ReqCase {
 				continue
 			}
 			used[strings.ToLower(name)] = true
-			v := genValue(t)
+			v := genValueFor(t, name)
 			if v == "" && (name == "Accept-Encoding" || name == "User-Agent") {
 				v = "identity" // an empty value makes Go's transport add its default next to it (allowed by the property)
 			}
@@ -147,7 +195,7 @@ func genCase(t *rapid.T) ReqCase {
 			name := rapid.SampledFrom(listFields).Draw(t, "lname")
 			k := rapid.IntRange(1, 3).Draw(t, "mult")
 			for j := 0; j < k; j++ {
-				c.Fields = append(c.Fields, vh.HeaderField{Name: mixCase(t, name), Value: genValue(t)})
+				c.Fields = append(c.Fields, vh.HeaderField{Name: mixCase(t, name), Value: genValueFor(t, name)})
 			}
 		default: // custom
 			name := "X-" + rapid.StringMatching(`[A-Za-z][A-Za-z0-9-]{0,10}`).Draw(t, "cname")
@@ -158,6 +206,17 @@ func genCase(t *rapid.T) ReqCase {
 			k := rapid.IntRange(1, 3).Draw(t, "cmult")
 			for j := 0; j < k; j++ {
 				c.Fields = append(c.Fields, vh.HeaderField{Name: name, Value: genValue(t)})
+			}
+		}
+	}
+	if rapid.IntRange(0, 5).Draw(t, "browser") == 0 {
+		// the header set of a browser navigation (fields not drawn above)
+		for _, f := range [][2]string{{"Accept", realistic["accept"][0]}, {"Accept-Encoding", "gzip, deflate, br"}, {"Accept-Language", "en-US,en;q=0.5"},
+			{"User-Agent", realistic["user-agent"][0]}, {"Sec-Fetch-Dest", "document"}, {"Sec-Fetch-Mode", "navigate"}, {"Sec-Fetch-Site", "same-origin"},
+			{"Sec-Fetch-User", "?1"}, {"Upgrade-Insecure-Requests", "1"}} {
+			if !used[strings.ToLower(f[0])] && !hasField(c.Fields, f[0]) {
+				used[strings.ToLower(f[0])] = true
+				c.Fields = append(c.Fields, vh.HeaderField{Name: f[0], Value: f[1]})
 			}
 		}
 	}
@@ -282,6 +341,8 @@ var (
 func stackW(t vh.TB) *vh.E2E {
 	e2eWOnce.Do(func() {
 		e2eW, e2eWErr = vh.NewE2E([]string{"--session-cookie-name=agent-session", "--disable-ssl-for-test", "--shim-websockets", "--shim-path=shim",
+			"--debug", "--favicon-url=https://example.com/favicon.ico", "--banner-height=50px", "--enable-websockets-injection", "--rewrite-websocket-host",
+			"--session-cookie-timeout=1h", "--session-cookie-cache-limit=100", "--proxy-timeout=90s", "--disable-gce-vm-header", "--graceful-shutdown-timeout=1s",
 			"--inject-banner=<b>verif banner</b>"})
 	})
 	if e2eWErr != nil {
